@@ -15,6 +15,30 @@ fn frame(kind: &str, tid: u16, unit: u8, pdu: &[u8]) -> Vec<u8> {
     }
 }
 
+/// a well-formed PDU, damaged before it is framed (so that the frame around it stays valid):
+/// cut at any length down to nothing, grown, one byte overwritten, the function code replaced
+/// (any byte, including the exception range), or plain random bytes
+pub fn damaged_pdu(rng: &mut Rng, good: &[u8]) -> Vec<u8> {
+    let mut p = good.to_vec();
+    match rng.below(6) {
+        0 => p.truncate(rng.below(good.len().max(1))),
+        1 => p.extend(rng.bytes_in(1, 4)),
+        2 if !p.is_empty() => {
+            let i = rng.below(p.len());
+            p[i] = rng.u8();
+        }
+        3 if !p.is_empty() => p[0] = rng.u8(),
+        4 if p.len() > 1 => {
+            // the field that usually carries a count
+            let i = if p.len() > 5 && rng.bool() { 5 } else { 1 };
+            p[i] = *rng.pick(&[0u8, 1, 0x7D, 0x7E, 0xF6, 0xFA, 0xFB, 0xFC, 0xFF]);
+        }
+        _ => p = rng.bytes_in(0, 12),
+    }
+    p.truncate(253);
+    p
+}
+
 fn emit(out: &mut Out, line: &str) {
     if out.monitored {
         monitor_line(out, line);
@@ -67,6 +91,7 @@ fn reply_events(rng: &mut Rng, kind: &str, tid: u16, unit: u8, req: &Request<'_>
             }
             f
         }
+        9 if rng.bool() => frame(kind, tid, unit, &damaged_pdu(rng, &good)),
         9 => {
             // a PDU the decoder must reject: surplus byte, wrong byte count, beyond the limit
             let mut p = good.clone();
@@ -235,6 +260,11 @@ pub fn gen_cli_histories(out: &mut Out, rng: &mut Rng, n: usize) {
                 }
                 _ => {
                     let req = loop {
+                        // now and then a custom code in the exception range: the client sends what it is given
+                        if rng.chance(1, 25) {
+                            let k = rng.below(6);
+                            break Request::Custom(rng.u8() | 0x80, std::borrow::Cow::Owned(rng.bytes(k)));
+                        }
                         let r = gen_request(rng, None);
                         if kind == "rtu" && matches!(r, Request::Custom(..)) && rng.chance(3, 4) {
                             continue;
@@ -267,6 +297,14 @@ pub fn gen_srv_histories(out: &mut Out, rng: &mut Rng, n: usize) {
             let tid = rng.u16();
             match rng.below(10) {
                 0 => data.extend(rng.bytes_in(1, 20)),
+                1 if rng.bool() => {
+                    // a damaged request inside a valid frame
+                    let good = spec::request_bytes(&gen_request(rng, None)).unwrap_or_else(|| vec![3, 0, 0, 0, 1]);
+                    let p = damaged_pdu(rng, &good);
+                    data.extend(frame(kind, tid, unit, &p));
+                    // (should it happen to be well-formed, the service has an answer)
+                    svc.push(Svc::Reply(Response::ReadCoils(vec![true; 8])));
+                }
                 1 => {
                     // malformed but framed
                     let mut f = frame(kind, tid, unit, &[0x05, 0, 1, 0x12, 0x34]);
@@ -370,6 +408,7 @@ pub fn gen_stream_histories(out: &mut Out, rng: &mut Rng, n: usize) {
                     }
                 }
             };
+            let pdu = if rng.chance(1, 5) { damaged_pdu(rng, &pdu) } else { pdu };
             let unit = if !tcp && rng.bool() { *rng.pick(&[0x00u8, 0x80, 0x41, 0x64]) } else { rng.u8() };
             let mut f = if tcp { spec::mbap(rng.u16(), unit, &pdu) } else { spec::rtu_frame(unit, &pdu) };
             match rng.below(8) {
